@@ -110,10 +110,65 @@ def search(D=3):
     return n, None
 
 
+def search_readonly():
+    """the read-only entry points (validate, get_gene, get_value, diff, export, get_statistics, list_genes, get_hash, express, replicate's parent)
+    on genomes whose values are scalars and nested containers, after refused mutations / silencing: a DEEP snapshot of every stored value, the
+    hash, the expression levels, the expressed configuration and the log must be the same before and after (bounded)"""
+    import copy, enum
+    from operon_ai.state.genome import Genome, Gene, ExpressionLevel
+
+    class Colour(enum.Enum):
+        RED = "red"
+    shapes = [1, "s", [1, 2], {"k": 1}, (1, 2), {"x", "y"}, {"allowed": {"search", "calc"}, "window": (1, 8)}, [(1, 2), {"q"}], {"c": Colour.RED},
+              [Colour.RED, [(3,)]], {"deep": {"deeper": [frozenset({1})]}}]
+    preludes = [[], [("mutate", "a", 5)], [("silence", "a")], [("mutate", "a", 5), ("silence", "b")]]
+    calls = [("validate", lambda g, o: g.validate()), ("get_gene", lambda g, o: g.get_gene("a")), ("get_value", lambda g, o: g.get_value("a")),
+             ("get_value(default)", lambda g, o: g.get_value("zz", [])), ("diff", lambda g, o: g.diff(o)), ("export", lambda g, o: g.export()),
+             ("get_statistics", lambda g, o: g.get_statistics()), ("list_genes", lambda g, o: g.list_genes()), ("get_hash", lambda g, o: g.get_hash()),
+             ("express", lambda g, o: g.express()), ("child.export", lambda g, o: g.replicate().export()),
+             ("child.validate", lambda g, o: g.replicate().validate())]
+    n = 0
+    for v in shapes:
+        for pre in preludes:
+            for cname, call in calls:
+                n += 1
+                g = Genome(genes=[Gene(name="a", value=copy.deepcopy(v), required=True), Gene(name="b", value=copy.deepcopy(shapes[6]))], silent=True)
+                other = Genome(genes=[Gene(name="a", value=0)], silent=True)
+                for op in pre:
+                    if op[0] == "mutate":
+                        g.mutate(op[1], op[2])
+                    else:
+                        g.silence_gene(op[1])
+
+                def snap():
+                    # compared with ==, and types alongside (a set turned into a list, a tuple into a list); never by repr (set order)
+                    def ty(x):
+                        if isinstance(x, dict):
+                            return ("dict", sorted((repr(k), ty(w)) for k, w in x.items()))
+                        if isinstance(x, (list, tuple)):
+                            return (type(x).__name__, [ty(w) for w in x])
+                        return type(x).__name__
+                    return ({k: copy.deepcopy(x.value) for k, x in g._genes.items()}, {k: ty(x.value) for k, x in g._genes.items()}, g.get_hash(),
+                            {k: x.level for k, x in g._expression.items()}, copy.deepcopy(g.express()), len(g._mutations), [m.approved for m in g._mutations])
+                before = snap()
+                try:
+                    call(g, other)
+                except Exception:      # noqa  (totality of these entry points is not part of the property)
+                    pass
+                after = snap()
+                if after != before:
+                    return n, (f"{cname}() changed the genome with mutations disabled (value of 'a' = {v!r}, prelude {pre}): "
+                               f"{before[0]} / hash {before[2]} -> {after[0]} / hash {after[2]}")
+    return n, None
+
+
 if __name__ == "__main__":
     D = int(sys.argv[1]) if len(sys.argv) > 1 else 3
     n, bad = search(D)
-    out = {"status": "ok" if bad is None else "violation", "bound": f"operation sequences of depth {D} over 15 operations x allow_mutations x 5 approval callbacks (by gene and by value)", "cases": n}
+    if bad is None:
+        n2, bad = search_readonly()
+        n += n2
+    out = {"status": "ok" if bad is None else "violation", "bound": f"operation sequences of depth {D} over 15 operations x allow_mutations x 5 approval callbacks (by gene and by value); read-only entry points x 11 value shapes x 4 preludes with deep snapshots", "cases": n}
     if bad:
         out["detail"] = bad
         os.makedirs("replays", exist_ok=True)
